@@ -198,6 +198,25 @@ pub fn c06(a: &Args) {
             }
         }
     }
+    // a model with 2^69 * 3 models (count beyond u64): pages are still complete, distinct models
+    {
+        let lines = vec!["o 1 0".to_string(), "t 2 0".to_string(), "1 2 1 0".to_string(), "1 2 -1 2 0".to_string()];
+        let text = lines.join("\n");
+        let n = 72u32;
+        if let Ok(mut d) = guarded(move || ddnnife::parser::distribute_building(lines, Some(n), None)) {
+            let mut seen: std::collections::HashSet<Vec<i32>> = Default::default();
+            for (step, k) in [1usize, 3, 50, 2].into_iter().enumerate() {
+                out.eval(Some(format!("{text}|huge|{step}")));
+                match guarded(|| d.enumerate(&mut vec![], k)) {
+                    Ok(Some(page)) => {
+                        let ok = page.len() == k && page.iter().all(|c| c.len() == n as usize && (1..=n as i32).all(|v| c.contains(&v) != c.contains(&-v)) && (c.contains(&1) || c.contains(&2)) && seen.insert(c.clone()));
+                        if !ok { out.fail("enumeration-paging", &text, &format!("enum l {k} (step {step}) -t {n}"), &format!("{} configurations", page.len()), &format!("{k} complete models not returned before")); break; }
+                    }
+                    other => { out.fail("enumeration-paging", &text, &format!("enum l {k} (step {step}) -t {n}"), &format!("{:?}", other.map(|p| p.map(|x| x.len()))), "a page"); break; }
+                }
+            }
+        }
+    }
     // pages of more than 10 000 configurations through the stream and the library on models with 16 384 / 24 576 models
     // (amounts chosen so that what is left of a cycle hits multiples of 1 000 / 10 000 and the cycle boundary)
     for (idx, (lines, n, count)) in [
